@@ -54,7 +54,7 @@ def entropy_term(k, w, A):
 
 
 def rows_of(val):
-    if isinstance(val, tuple) and len(val) == 2 and val[0] == "__vstack__":
+    if isinstance(val, tuple) and len(val) == 2 and isinstance(val[0], str) and val[0] == "__vstack__":
         return val[1]
     import numpy as np
     if isinstance(val, np.ndarray) and val.ndim == 2:
